@@ -50,8 +50,11 @@ def run_property(prop, tier, write=True):
     ctx = Ctx(prop, tier)
     mod = importlib.import_module("zrules.rules.%s" % prop.lower())
     configs = ["default"]
-    if tier == "thorough" and getattr(mod, "PER_CONFIG", False):
+    if tier == "thorough":
+        # the second feature configuration (async-std runtime, all transports): the cfg-split properties (PER_CONFIG: C17, C18,
+        # C20) need it, for the others it re-decides every rule on the other runtime's expansion of the same source
         configs.append("asyncstd")
+        configs.append("asyncdisp")
     total = Report(prop, "all")
     for cfg in configs:
         rep = Report(prop, cfg)
